@@ -5,7 +5,12 @@
 // empty stub (see hook_off.go) and is inlined away.
 package verifhook
 
-import "sync/atomic"
+import (
+	"fmt"
+	"os"
+	"runtime/debug"
+	"sync/atomic"
+)
 
 // Enabled reports whether the hooks are compiled in.
 const Enabled = true
@@ -54,4 +59,10 @@ func FS(op, path string, off, n int64) {
 	if h := cur.Load(); h != nil && h.FS != nil {
 		h.FS(op, path, off, n)
 	}
+}
+
+// AssertFailed is called right before a failed internal assertion terminates the process. It
+// prints the stack of the failing goroutine so that the harness can attribute the crash.
+func AssertFailed() {
+	fmt.Fprintf(os.Stderr, "BADGER-ASSERT-FAILED github.com/dgraph-io/badger/v4\n%s\n", debug.Stack())
 }
